@@ -2119,9 +2119,12 @@ func decodeJSXEntities(decoded []uint16, text string) []uint16 {
 						number = number[1:]
 						base = 16
 					}
-					if value, err := strconv.ParseInt(number, base, 32); err == nil {
-						c = rune(value)
-						i += length + 1
+					// (strconv.ParseInt accepts a sign, the JSX grammar only digits)
+					if len(number) > 0 && number[0] != '+' && number[0] != '-' {
+						if value, err := strconv.ParseInt(number, base, 32); err == nil {
+							c = rune(value)
+							i += length + 1
+						}
 					}
 				} else if value, ok := jsxEntity[entity]; ok {
 					c = value
